@@ -26,7 +26,7 @@ package api
 //@ iface api.FeatureInterface.Address pure const ensures result != nil
 //@ iface api.FeatureInterface.Type pure const
 //@ iface api.FeatureInterface.Role pure const
-//@ iface api.FeatureInterface.Operations pure
+//@ iface api.FeatureInterface.Operations pure ensures forall k model.FunctionType :: has(result, k) ==> result[k] != nil
 //@ iface api.FeatureLocalInterface.Device pure const ensures result != nil
 //@ iface api.FeatureLocalInterface.Entity pure const ensures result != nil
 //@ iface api.FeatureRemoteInterface.Device pure const ensures result != nil
@@ -44,7 +44,7 @@ package api
 //@ iface api.DeviceInterface.Address pure
 //@ iface api.DeviceRemoteInterface.Ski pure const
 //@ iface api.DeviceRemoteInterface.Sender pure const ensures result != nil
-//@ iface api.DeviceRemoteInterface.Entities pure
+//@ iface api.DeviceRemoteInterface.Entities pure ensures forall i int :: 0 <= i && i < len(result) ==> result[i] != nil
 //@ iface api.DeviceRemoteInterface.Entity pure
 //@ iface api.DeviceRemoteInterface.FeatureByAddress pure
 //@ iface api.DeviceLocalInterface.FeatureByAddress pure
@@ -160,7 +160,7 @@ package api
 //@   modifies world, held
 //@ iface api.DeviceRemoteInterface.RemoveEntityByAddress
 //@   modifies world, held
-//@ iface api.DeviceRemoteInterface.CheckEntityInformation pure
+//@ iface api.DeviceRemoteInterface.CheckEntityInformation pure ensures[C05] accepted-is-addressed: result == nil ==> entity.Description != nil && entity.Description.EntityAddress != nil && len(entity.Description.EntityAddress.Entity) > 0
 //@ iface api.DeviceLocalInterface.CleanRemoteEntityCaches
 //@   modifies world, held
 //@ iface api.DeviceLocalInterface.Information
